@@ -1598,6 +1598,47 @@ def unique(a):
     return ndarray._from_flat(out, (len(out),), a.kind)
 
 
+def _contains(vals, v):
+    for w in vals:
+        if symx.truth(v == w):
+            return True
+    return False
+
+
+def setdiff1d(ar1, ar2, assume_unique=False):
+    a = unique(asarray(ar1).flatten())
+    b = asarray(ar2).flatten()._flat_values()
+    out = [v for v in a._flat_values() if not _contains(b, v)]
+    return ndarray._from_flat(out, (len(out),), a.kind)
+
+
+def intersect1d(ar1, ar2, assume_unique=False):
+    a = unique(asarray(ar1).flatten())
+    b = asarray(ar2).flatten()
+    out = [v for v in a._flat_values() if _contains(b._flat_values(), v)]
+    return ndarray._from_flat(out, (len(out),), _kmax(a.kind, b.kind))
+
+
+def union1d(ar1, ar2):
+    return unique(concatenate([asarray(ar1).flatten(), asarray(ar2).flatten()]))
+
+
+def bincount(x, weights=None, minlength=0):
+    x = asarray(x)
+    if weights is not None or x.ndim != 1:
+        raise ModelGap("bincount with weights / of a multi-dimensional array")
+    if x.size and x.kind not in ('i', 'b'):
+        raise TypeError("Cannot cast array data from dtype('float64') to dtype('int64') according to the rule 'safe'")
+    vals = [int(v) for v in x._flat_values()]
+    if builtins.any(v < 0 for v in vals):
+        raise ValueError("'list' argument must have no negative elements")
+    n = builtins.max([v + 1 for v in vals] + [int(minlength)])
+    out = [0] * n
+    for v in vals:
+        out[v] += 1
+    return _int_array(out)
+
+
 def diff(a, n=1, axis=-1, prepend=None, append=None):
     a = asarray(a)
     if n != 1:
